@@ -124,7 +124,7 @@ func TestVerifC14rtRestart(t *testing.T) {
 		"restart-after-partial-syncs", "restart-of-overwritten-file", "restarted-db-continues-with-partial-sync",
 		"key-changed-owner-between-full-syncs", "found-by-dev", "found-by-linked", "found-by-ded", "found-by-human", "not-found",
 		"used-before-store", "used-before-store-with-domain-rules", "device-used-before-store",
-		"restart-after-near-miss-change", "start-from-unreadable-file", "start-from-other-version-file", "store-failed")
+		"restart-after-near-miss-change", "start-from-unreadable-file", "start-from-other-version-file", "store-failed", "zoned-ipv6-key")
 	st.Finish(t)
 	vc14rtNeedZones(t)
 
@@ -396,6 +396,12 @@ func TestVerifC14rtRestart(t *testing.T) {
 				check("restarted database", k, p2, d2, err2)
 				if errors.Is(err1, ErrProfileNotFound) != errors.Is(err2, ErrProfileNotFound) {
 					fail("%s: running database says %v, restarted one says %v", k, err1, err2)
+				}
+
+				if err1 == nil && k.IP.Zone() != "" {
+					// Found by the zoned form; the zoneless form of the same
+					// address is looked up as a separate key.
+					cl["zoned-ipv6-key"] = true
 				}
 
 				if err1 == nil {
